@@ -279,8 +279,16 @@ edn_value_t* edn_read_set(edn_parser_t* parser) {
         return NULL;
     }
 
-    /* Check for duplicate elements (EDN spec requirement) */
-    if (count > 1 && edn_has_duplicates(elements, count)) {
+    /* Check for duplicate elements (EDN spec requirement). Comparing elements decodes
+     * strings lazily; if the arena refused such a request the verdict cannot be trusted. */
+    size_t refused_before = edn_arena_failed_requests(parser->arena);
+    bool has_duplicates = count > 1 && edn_has_duplicates(elements, count);
+    if (edn_arena_failed_requests(parser->arena) != refused_before) {
+        parser->error = EDN_ERROR_OUT_OF_MEMORY;
+        parser->error_message = "Out of memory while checking set for duplicates";
+        return NULL;
+    }
+    if (has_duplicates) {
         parser->error = EDN_ERROR_DUPLICATE_ELEMENT;
         parser->error_message = "Set contains duplicate elements";
         parser->error_start = value_start;
@@ -557,9 +565,17 @@ static edn_value_t* edn_read_map_internal(edn_parser_t* parser, const char* valu
         return NULL;
     }
 
-    /* Check for duplicate keys (EDN spec requirement) */
+    /* Check for duplicate keys (EDN spec requirement). Comparing keys decodes strings
+     * lazily; if the arena refused such a request the verdict cannot be trusted. */
     if (count > 1) {
-        if (edn_has_duplicates(keys, count)) {
+        size_t refused_before = edn_arena_failed_requests(parser->arena);
+        bool has_duplicates = edn_has_duplicates(keys, count);
+        if (edn_arena_failed_requests(parser->arena) != refused_before) {
+            parser->error = EDN_ERROR_OUT_OF_MEMORY;
+            parser->error_message = "Out of memory while checking map for duplicate keys";
+            return NULL;
+        }
+        if (has_duplicates) {
             parser->error = EDN_ERROR_DUPLICATE_KEY;
             parser->error_message = ns_name != NULL ? "Namespaced map contains duplicate keys"
                                                     : "Map contains duplicate keys";
